@@ -91,3 +91,192 @@ Proof.
   cbv zeta. split; [unfold healthy; simpl; repeat split; auto; discriminate|].
   eexists. vm_compute. split; reflexivity.
 Qed.
+
+(* ======================================================================================================
+   C11 connected to the page-ownership model (coq/Txn/Own.v, C06): the history quantifier is PROVED.
+   Model: coq/Reopen/Snapshot.v -- on top of Own.st: the snapshot a quick-repair commit saves
+   (`snapshot_at` = (lastid, alloc) at `commit_dur_pre .. qr:=true ..`), the durable image a process leaves
+   (`dimg`: version, DATA_FREED, SYSTEM_FREED, persistent savepoints, allocator-state table, two-phase flag),
+   the open paths as functions from that image to a fresh ownership state (`xopen`: load | rebuild + repair
+   commit), check_integrity's comparison, the needs_repair latch and leaked pages next to the ownership state
+   (`xst`), and histories over all of Own.v's steps + leak + check_integrity + clean close + crash (`xop`).
+   Proofs: coq/Reopen/SnapshotP.v.  What is abstracted: see the header of Own.v; byte-level header decisions
+   (torn slots, slot swaps) are the first half of this file, tied by `c11_abs_open_agrees`. *)
+From RV Require Import Txn.PSet Txn.Own Txn.OwnThmP Reopen.Snapshot Reopen.SnapshotP.
+
+(* snapshot_exact: for EVERY admissible history of Own.v (all step kinds) ending in a quick-repair durable
+   commit, the saved snapshot carries the id of the version that commit publishes, is duplicate-free and has
+   exactly the elements of that version's required pages (data + system pages + DATA_FREED + SYSTEM_FREED as committed) *)
+Theorem c11_snapshot_exact : forall h D' Sd So pcf,
+  admissible init (h ++ [OCommitDur D' Sd So true pcf]) ->
+  let s := run h init in
+  let sn := snapshot_at D' Sd s in
+  let v := published D' Sd true s in
+  snap_txid sn = vid (dur v) /\ dur (run (h ++ [OCommitDur D' Sd So true pcf]) init) = dur v /\
+  NoDup (snap_pages sn) /\ NoDup (required_st v) /\
+  (forall p, In p (snap_pages sn) <-> In p (required_st v)).
+Proof. exact snapshot_exact. Qed.
+
+(* stale detection, part 1: a table whose id differs from the opened version's id is never loaded; the open
+   rebuilds exactly the required pages; after the repair commit the carried table is stale again *)
+Theorem c11_snapshot_stale_detected : forall i,
+  (forall sn, d_snap i = Some sn -> snap_txid sn <> vid (d_ver i)) ->
+  open_path i = Rebuild /\ xopen i = (open_rebuild i, repair_image i) /\ alloc (fst (xopen i)) = required i.
+Proof. exact stale_never_loaded. Qed.
+
+Theorem c11_snapshot_loaded_only_own_id : forall i, open_path i = Load ->
+  exists sn, d_snap i = Some sn /\ snap_txid sn = vid (d_ver i) /\ d_tpc i = true /\
+             alloc (fst (xopen i)) = snap_pages sn /\
+             snd (xopen i) = mkdimg (d_ver i) (d_dfreed i) (d_sfreed i) (d_sps i) (d_snap i) (d_tpc i) false.
+Proof. exact loaded_only_own_id. Qed.
+
+Theorem c11_stale_after_repair : forall i,
+  (forall sn, d_snap i = Some sn -> snap_txid sn <= vid (d_ver i)) ->
+  open_path (repair_image i) = Rebuild /\ required (repair_image i) = required i /\
+  alloc (fst (xopen (repair_image i))) = required i.
+Proof. exact stale_after_repair. Qed.
+
+(* ... tie to the byte-level model above (c11_snapshot_fresh / c11_stale_snapshot_not_trusted speak about its `open`) *)
+Theorem c11_abs_open_agrees : forall i other,
+  d_tpc i = true \/ s_txid other <= vid (d_ver i) ->
+  exists o, open (abs_image i other) = Ok o /\ o_path o = open_path i /\ o_slot o = abs_slot i /\
+            o_swapped o = false /\ o_alloc o = map pN (alloc (fst (xopen i))).
+Proof. exact abs_open_agrees. Qed.
+
+(* stale detection, part 2 (ids are fresh): whenever, later in ANY history, the durable version carries the id
+   of a snapshot, it is the very version that snapshot's own commit published; later snapshots carry larger ids *)
+Theorem c11_snapshot_id_fresh : forall h1 D' Sd So pcf h2,
+  admissible init (h1 ++ OCommitDur D' Sd So true pcf :: h2) ->
+  let s := run h1 init in
+  let s' := run (h1 ++ OCommitDur D' Sd So true pcf :: h2) init in
+  vid (dur s') = snap_txid (snapshot_at D' Sd s) -> dur s' = dur (published D' Sd true s).
+Proof. exact snapshot_id_fresh. Qed.
+
+Theorem c11_snapshot_ids_differ : forall h1 D1 Sd1 So1 pcf1 h2 D2 Sd2 So2 pcf2,
+  admissible init (h1 ++ OCommitDur D1 Sd1 So1 true pcf1 :: h2 ++ [OCommitDur D2 Sd2 So2 true pcf2]) ->
+  let s1 := run h1 init in
+  let s2 := run (h1 ++ OCommitDur D1 Sd1 So1 true pcf1 :: h2) init in
+  snap_txid (snapshot_at D1 Sd1 s1) < snap_txid (snapshot_at D2 Sd2 s2).
+Proof. exact snapshot_ids_differ. Qed.
+
+(* the invariant of histories with leaks, check_integrity, clean closes and crashes (every stop is followed by an
+   open and the history goes on: "repeated") *)
+Theorem c11_xinv_reach : forall h, xadmissible xinit h -> XInv (xrun h xinit).
+Proof. exact xinv_reach_init. Qed.
+
+(* open_exact, unconditionally: for every such history, every way of stopping it (None = crash: the image of the
+   last durable commit; Some Sd = clean close: the image of the closing quick-repair commit, or -- latch set --
+   nothing new) and whichever path the open takes: allocated = required of the durable version, exactly *)
+Theorem c11_open_exact_all_histories : forall h c, xadmissible xinit h ->
+  let x := xrun h xinit in stop_ok x c ->
+  let i := stop_image x c in
+  let s' := fst (xopen i) in
+  NoDup (alloc s') /\ NoDup (required i) /\ (forall p, In p (alloc s') <-> In p (required i)) /\
+  required (snd (xopen i)) = required i /\
+  (open_path i = Load -> exists sn, d_snap i = Some sn /\ snap_txid sn = vid (d_ver i) /\ alloc s' = snap_pages sn) /\
+  (open_path i = Rebuild -> alloc s' = rebuild i).
+Proof. exact open_exact_all_histories. Qed.
+
+Theorem c11_clean_close_loads_all_histories : forall h Sd, xadmissible xinit h ->
+  let x := xrun h xinit in xok x (XClose Sd) = true -> nrep x = false ->
+  let i := closed_image Sd x in
+  open_path i = Load /\ d_clean i = true /\
+  d_snap i = Some (snapshot_at (vdata (lat (own x))) Sd (begin_write (own x))).
+Proof. exact clean_close_loads. Qed.
+
+(* write_after_open_safe: the state every open path produces satisfies Own.Inv, so everything C06 proves about
+   histories (c06_inv_reach, c06_no_early_free, ...) applies to whatever is done after the reopen *)
+Theorem c11_write_after_open_safe : forall h c, xadmissible xinit h ->
+  let x := xrun h xinit in stop_ok x c ->
+  let s' := fst (xopen (stop_image x c)) in
+  Inv s' /\ inw s' = false /\
+  (forall h', admissible s' h' -> Inv (run h' s') /\ incl (pinned (run h' s')) (alloc (run h' s'))).
+Proof. exact write_after_open_safe. Qed.
+
+Theorem c11_inv_all_histories : forall h, xadmissible xinit h -> Inv (own (xrun h xinit)).
+Proof. exact inv_all_histories. Qed.
+
+(* integrity_clean: in every reachable state with no write transaction live and nothing leaked, the comparison
+   check_integrity makes (live allocator vs rebuild from roots + freed tables + unpersisted freed records) finds
+   them equal -- O1 of C06 -- any number of times *)
+Theorem c11_integrity_clean_all_histories : forall h, xadmissible xinit h ->
+  let x := xrun h xinit in inw (own x) = false -> leaked x = [] ->
+  integrity_verdict x = true /\
+  NoDup (xalloc x) /\ (forall p, In p (xalloc x) <-> In p (rebuild_live (own x))).
+Proof. exact integrity_clean_all_histories. Qed.
+
+Theorem c11_integrity_repeatable_all_histories : forall n h, xadmissible xinit h ->
+  let x := xrun h xinit in inw (own x) = false -> pend (own x) = [] -> leaked x = [] ->
+  let x' := xchecks n x in
+  integrity_verdict x' = true /\ img x' = img x /\ lat (own x') = lat (own x) /\ dur (own x') = dur (own x) /\
+  (forall p, In p (alloc (own x')) <-> In p (alloc (own x))).
+Proof. exact integrity_repeatable_all_histories. Qed.
+
+(* the needs_repair latch: set by a panic-unwound write transaction; while set, no commit saves a snapshot and a
+   close writes nothing and is not recorded clean; only check_integrity's rebuild or the end of the process clears
+   it -- a later successful abort does NOT; leaked pages exist only under the latch *)
+Theorem c11_leak_latch_blocks_snapshot : forall h, xadmissible xinit h ->
+  let x := xrun h xinit in
+  nrep (xstep x XLeak) = true /\
+  (nrep x = true ->
+     (forall D' Sd So qr pcf tpc, d_snap (img (xstep x (XOp (OCommitDur D' Sd So qr pcf) tpc))) = None) /\
+     (forall Sd, closed_image Sd x = img x /\ d_clean (closed_image Sd x) = false) /\
+     nrep (xstep x (XOp OAbort false)) = true /\
+     (forall o, nrep (xstep x o) = false ->
+        match o with XCheck _ _ | XClose _ | XCrash => True | _ => False end)) /\
+  (leaked x <> [] -> nrep x = true).
+Proof. exact leak_latch_blocks_snapshot. Qed.
+
+(* what the correspondence driver computes per durable commit (snapshot saved? two-phase flag) is what the model's
+   commit step leaves in the image; a saved snapshot carries the published id *)
+Theorem c11_commit_flags_sound : forall x D' Sd So qr pcf tpc,
+  let x' := xstep x (XOp (OCommitDur D' Sd So qr pcf) tpc) in
+  let fl := commit_flags x qr tpc in
+  d_tpc (img x') = snd fl /\ nrep x' = nrep x /\
+  (fst fl = false -> d_snap (img x') = None) /\
+  (fst fl = true -> exists sn, d_snap (img x') = Some sn /\ snap_txid sn = vid (d_ver (img x'))).
+Proof. exact commit_flags_sound. Qed.
+
+(* ---- non-vacuity: a history with a persistent savepoint (pending DATA_FREED / SYSTEM_FREED entries), a
+   quick-repair commit, a leaked transaction, a later successful abort, a quick-repair commit under the latch *)
+Fixpoint c11_xadmb (x : xst) (h : list xop) : bool :=
+  match h with [] => true | o :: r => xok x o && c11_xadmb (xstep x o) r end.
+
+Definition c11_hA : list xop :=
+  [ XOp OBeginWrite false; XOp (OMutData [1;2;3]%positive) false;
+    XOp (OCommitDur [1;2;3]%positive [10;11]%positive [] false false) false;
+    XOp OBeginWrite false; XOp (OSpCreate 9 true) false; XOp (OMutData [1;2;4;5]%positive) false;
+    XOp (OCommitDur [1;2;4;5]%positive [10;12;13]%positive [] true false) false ].
+
+Definition c11_hB : list xop := c11_hA ++
+  [ XOp OBeginWrite false; XOp (OMutData [1;2;4;6;7]%positive) false; XLeak;
+    XOp OBeginWrite false; XOp (OMutData [1;2;4;8]%positive) false; XOp OAbort false;
+    XOp OBeginWrite false; XOp (OCommitDur [1;2;4;5]%positive [10;12;14]%positive [] true false) false ].
+
+Lemma c11_xadmb_sound : forall h x, c11_xadmb x h = true -> xadmissible x h.
+Proof.
+  induction h as [|o r IH]; intros x H; simpl in *; [exact I|].
+  apply andb_true_iff in H. destruct H as [H1 H2]. split; [exact H1 | apply IH; exact H2].
+Qed.
+
+Example c11_nonvacuous_snapshot :
+  let x := xrun c11_hA xinit in
+  xadmissible xinit c11_hA /\
+  d_snap (img x) = Some (mksnap 3 [12;13;4;5;10;11;1;2;3]%positive) /\
+  d_dfreed (img x) = [(3, [3]%positive)] /\ d_sfreed (img x) = [(3, [11]%positive)] /\
+  required (img x) = [1;2;4;5;10;12;13;3;11]%positive /\
+  open_path (img x) = Load /\ xalloc (reopened (img x)) = [12;13;4;5;10;11;1;2;3]%positive /\
+  own_checkb (own (reopened (img x))) = true.
+Proof. split; [apply c11_xadmb_sound; vm_compute; reflexivity|]. vm_compute. repeat split; reflexivity. Qed.
+
+Example c11_nonvacuous_latch :
+  let x := xrun c11_hB xinit in
+  xadmissible xinit c11_hB /\ nrep x = true /\ leaked x = [6;7]%positive /\ d_snap (img x) = None /\
+  integrity_verdict x = false /\ open_path (img x) = Rebuild /\
+  xalloc (xstep x XCrash) = [1;2;4;5;10;12;14;3;11]%positive /\ nrep (xstep x XCrash) = false /\
+  open_path (img (xstep x XCrash)) = Rebuild /\
+  (let y := xstep x (XCheck [] true) in nrep y = false /\ leaked y = [] /\ integrity_verdict y = true /\
+     xok y (XClose [10;12;15]%positive) = true /\
+     open_path (closed_image [10;12;15]%positive y) = Load /\ d_clean (closed_image [10;12;15]%positive y) = true /\
+     own_checkb (own (xstep y (XClose [10;12;15]%positive))) = true).
+Proof. split; [apply c11_xadmb_sound; vm_compute; reflexivity|]. vm_compute. repeat split; reflexivity. Qed.
